@@ -158,6 +158,9 @@ def goodnessStats (bins : List (Nat × α)) (nfitted : Int) : Goodness α :=
   if r2.1 != .ok then Goodness.fail r2.1 else
   { st := .ok, nbins := nb, g := g, gp := r2.2, x2 := x2, x2p := r1.2 }
 
+/-- the first bin `esl_histogram_Goodness` and `esl_histogram_PlotQQ` evaluate: `bbase = cmin; if (is_tailfit && emin > bbase) bbase = emin;` -/
+def goodnessBase (h : Hist α) (e : Expect α) : Int := if e.isTailfit && e.emin > h.cmin then e.emin else h.cmin
+
 /-- `esl_histogram_Goodness(h, nfitted, &nbins, &G, &Gp, &X2, &X2p)`; also returns the re-bins (oldest first) for the accounting theorem -/
 def Hist.goodness (h : Hist α) (e : Expect α) (nfitted : Int) : Out (Goodness α × List (Nat × α)) :=
   match e.expect with
@@ -218,6 +221,24 @@ def Hist.plotSurvival (h : Hist α) : Out (Bool × List (Int × Nat)) :=
     match survRows h.obs (h.imax + 1 - h.imin).toNat h.imax 0 [] with
     | .fault => .fault
     | .val rows => .val (f, rows)
+
+/-- rows of the first data set of `esl_histogram_PlotQQ`: for `i = bbase .. imax-1` the bin and the running count `sum` whose fraction
+    `sum / Nc` is handed to the inverse cdf -/
+def qqRows (obs : Array Nat) : Nat → Int → Nat → List (Int × Nat) → Out (List (Int × Nat))
+  | 0, _, _, acc => .val acc.reverse
+  | k+1, i, sum, acc =>
+    match getObs obs i with
+    | .fault => .fault
+    | .val c => qqRows obs k (i + 1) (sum + c) ((i, sum + c) :: acc)
+
+/-- `esl_histogram_PlotQQ`, observed part: `sum` starts at `z` for censored data, the bins `cmin..bbase-1` are added silently, then one row per
+    bin `bbase..imax-1` ("avoid last bin where upper cdf=1.0") -/
+def Hist.plotQQ (h : Hist α) (e : Expect α) : Out (List (Int × Nat)) :=
+  let sum0 : Nat := if h.datasetIs == .trueCensored || h.datasetIs == .virtualCensored then h.z else 0
+  let bbase := goodnessBase h e
+  match goodnessCount h.obs (bbase - h.cmin).toNat h.cmin sum0 with
+  | .fault => .fault
+  | .val s => qqRows h.obs (h.imax - bbase).toNat bbase s []
 
 /-- expected part of the survival plot: rows for the bins with a positive expectation, from the top down, with the running sum -/
 def survExpected (ex : Array α) : List (Nat × α) :=
